@@ -146,7 +146,8 @@ TLC_STATS = re.compile(r"(\d+) states generated, (\d+) distinct states found")
 def tlc(module, cfg=None, env=None, workers=1, timeout=900, extra=(), metadir=None, xmx="4g", cwd=SPEC, simulate=None):
     """Run TLC; returns dict(rc, out, generated, distinct).  rc 0 = no error."""
     md = metadir or scratch("tlcmeta-")
-    cmd = ["java", "-Xss128m", "-Xmx" + xmx, "-XX:+UseParallelGC", "-cp", TLA_CP, "tlc2.TLC",
+    # (TLC makes an empty directory in java.io.tmpdir per run and leaves it: it goes into the run's own scratch directory, removed below)
+    cmd = ["java", "-Djava.io.tmpdir=" + md, "-Xss128m", "-Xmx" + xmx, "-XX:+UseParallelGC", "-cp", TLA_CP, "tlc2.TLC",
            "-workers", str(workers), "-metadir", md, "-config", cfg or (module + ".cfg")]
     if simulate:
         cmd += ["-simulate", simulate]
